@@ -364,6 +364,9 @@ pub enum Stmt {
     Select(Query),
     /// Raw SQL the model does not interpret (only used where the oracle does not need the model).
     Raw(String),
+    /// Raw query ending in ORDER BY: `keys` are the (output position, descending) of its sort
+    /// keys; results are compared as sequences on those positions.
+    RawOrdered { sql: String, keys: Vec<(usize, bool)> },
 }
 
 impl Stmt {
@@ -409,10 +412,11 @@ impl Stmt {
             Stmt::Delete { table, pred } => format!("DELETE FROM {table}{}", pred.sql()),
             Stmt::Select(q) => q.sql(),
             Stmt::Raw(s) => s.clone(),
+            Stmt::RawOrdered { sql, .. } => sql.clone(),
         }
     }
     pub fn is_write(&self) -> bool {
-        !matches!(self, Stmt::Select(_))
+        !matches!(self, Stmt::Select(_) | Stmt::RawOrdered { .. })
     }
 }
 
@@ -594,7 +598,7 @@ impl Model {
                 Expect::Count(rows.iter().filter(|r| pred.holds(def, r)).count() as i64)
             }
             Stmt::Select(q) => self.eval_query(q),
-            Stmt::Raw(_) => Expect::Unknown,
+            Stmt::Raw(_) | Stmt::RawOrdered { .. } => Expect::Unknown,
         }
     }
 
@@ -644,7 +648,7 @@ impl Model {
                 let d = def.clone();
                 data.retain(|r| !pred.holds(&d, r));
             }
-            Stmt::Select(_) | Stmt::Raw(_) => {}
+            Stmt::Select(_) | Stmt::Raw(_) | Stmt::RawOrdered { .. } => {}
         }
     }
 
